@@ -41,11 +41,13 @@ are claimed in MANIFEST.json (C15 at level `other`, the rest at level `proof`).
   of `find_bin_completions` calls against `BC.binCompletionT`, `binCompletionT_fst`), complete Karmarkar–Karp (every popped
   heap against `ckkFT`, `ckkFT_fst`), snp and rnp (every call of the two-way solver / bounded generator against `snpT`,
   `rnpFT`; `snpT_fst`, `rnpFT_fst`); complete greedy and CBLDM at every interruption point under a counting clock (C11).
-* Three more repairs: **F12** (objectives negated numpy unsigned sums with wrap-around: C20, and dp in C07); **F13** (`partition()` / `pack()` handed numpy
+* Four more repairs: **F12** (objectives negated numpy unsigned sums with wrap-around: C20, and dp in C07); **F13** (`partition()` / `pack()` handed numpy
   items to the algorithms as numpy scalars, whose sums wrap around in the array's own type: multifit returned 5 bins for `numbins=2` on a uint8 array, dp / cg /
   snp / rnp non-optimal partitions, bin completion overfull bins, ilp `OverflowError` on unsigned arrays — the former known finding KF7; arrays are now
   normalised at the adaptor); **F14** (ilp with copies other than 1 returned infeasible or sub-optimal answers as optimal on 1–2 % of small inputs: CBC's
   preprocessing, now switched off; earlier rounds had classified these as "solver faults" and not counted them — that allowance is gone) — section 9.
+  **F15** ends the known finding KF4: bin completion computed on the item *names* (`TypeError` for a dict with string names); the search now runs on the
+  values and the names are put back.  Known findings left: KF1 (rnp with 6 or more bins) and KF5.
   Seven input presentations (`array_valueof`, `uarray`, `narrow`): arrays of 8-, 16-, 32- and 64-bit signed and unsigned types.
 * The harness side of the correspondence runs the implementation calls in a pool of forked worker processes
   (`engine.impl_map`); C15's histories run in the main interpreter.
